@@ -797,15 +797,19 @@ package decoder
 
 //@ func (*numberDecoder).decodeByte(d, buf, cursor) (res, c, err)
 //@   props C05 C06
-//@   trusted delegates quoted numbers to stringDecoder.decodeByte (trusted); the unquoted branch is the float scanner
-//@   requires d != nil && bufOK(buf, cursor)
+//@   requires d != nil && d.stringDecoder != nil && bufOK(buf, cursor)
 //@   ensures err == nil ==> cursor < c && c < len(buf)
-//@   assigns all
+//@   ensures buf[len(buf)-1] == 0
+//@   assigns M[ptrOf(buf) + cursor .. ptrOf(buf) + len(buf) - 1)
+//@   loop 1: invariant old(cursor) <= cursor && cursor < len(buf)
+//@   loop 1: decreases len(buf) - cursor
+//@   loop 2: invariant start < cursor && cursor < len(buf)
+//@   loop 2: decreases len(buf) - cursor
 
 // a json.Number is stored only if its text is a JSON number
 //@ func (*numberDecoder).Decode(d, ctx, cursor, depth, p) (c, err)
 //@   props C05 C06
-//@   requires d != nil && ctx != nil && bufOK(ctx.Buf, cursor)
+//@   requires d != nil && d.stringDecoder != nil && ctx != nil && bufOK(ctx.Buf, cursor)
 //@   ensures err != nil ==> ncalls("numberDecoder.op") == old(ncalls("numberDecoder.op"))
 //@   ensures err == nil ==> ncalls("numberDecoder.op") == old(ncalls("numberDecoder.op")) || ncalls("numberDecoder.op") == old(ncalls("numberDecoder.op")) + 1
 //@   ghost tp := ptrOf(bytes)
